@@ -13,6 +13,7 @@ import (
 
 func (g *Gen) resetVC() {
 	g.vc = &VC{declSet: map[string]bool{}, sorts: g.cs.Sorts}
+	g.frameSeq = 0 // frame ids restart per verification condition: the query text of a function does not depend on what was verified before it
 	g.structs = map[string]*types.Struct{}
 	g.strLits = map[string]string{}
 	g.tags = map[string]int{}
